@@ -118,6 +118,15 @@ let run_case (t : string list) : string =
     (match pass_dims (zs w) (zs h) (zs p) with
      | Some (lw, ln) -> Printf.sprintf "%d %d" (int_of_z lw) (int_of_z ln)
      | None -> "PANIC unreachable")
+  | ["latin1dec"; b] -> String.concat "," (List.map (fun z -> string_of_int (int_of_z z)) (decode_latin1 (unhex (if b = "-" then "" else b))))
+  | ["latin1enc"; cps] ->
+    let l = if cps = "-" then [] else List.map (fun s -> zs s) (String.split_on_char ',' cps) in
+    (match encode_latin1 l with Some raw -> "OK " ^ hex raw | None -> "REFUSED")
+  | ["textinf"; z; limit] ->
+    (match text_decompress_run (unhex z) (zs limit) with
+     | Ok s -> "OK " ^ String.concat "," (List.map (fun z -> string_of_int (int_of_z z)) s)
+     | Err _ -> "ERR"
+     | Panic _ -> "PANIC")
   | ["expand"; dest; stride; p; line; width; bits; row] ->
     (match expand_pass_exec (unhex dest) (zs stride) (zs p) (zs line) (zs width) (zs bits) (unhex row) with
      | Some d -> hex d
